@@ -152,6 +152,11 @@ let run_case (k : string) (toks : string list) : string list =
      | Ok b -> ["x" ^ hex_of_nlist b]
      | Panic c -> status_tokens (Panic c)
      | OutOfFuel -> ["OUTOFFUEL"])
+  (* the same case on the specification-only machine (property-level oracle) *)
+  | "S" :: mode :: _plat :: ops ->
+    (match Model.spec_run_case (mode_of mode) (List.map op_of ops) with
+     | Some obs -> List.map obs_token obs
+     | None -> ["UNSUPPORTED"])
   | "H" :: mode :: plat :: ops ->
     let p = platform_of plat in
     let pname = (match plat with
